@@ -108,7 +108,18 @@ def check_properties_file(pid, extra_targets=()):
     if not ok:
         m = re.search(r'File "\./([^"]+)", line (\d+)', log)
         failed = (m.group(1) + ':' + m.group(2)) if m else 'unknown'
-    return {'ok': ok, 'log': log, 'theorems': thms, 'assumptions': assumptions, 'failed_at': failed}
+    res = {'ok': ok, 'log': log, 'theorems': thms, 'assumptions': assumptions, 'failed_at': failed}
+    if ok and os.environ.get('VERIF_COQCHK') == '1':
+        # thorough tier: the compiled file and everything it depends on, re-checked by Coq's independent checker
+        rc, out = sh(['timeout', '1500', 'coqchk', '-silent', '-o', '-Q', '.', 'KDB', f'KDB.Properties_{pid}'], cwd=COQ, timeout=1600)
+        summary = out[out.find('CONTEXT SUMMARY'):] if 'CONTEXT SUMMARY' in out else out[-1500:]
+        res['coqchk'] = ' '.join(summary.split())[:1200]
+        res['assumptions'] = list(assumptions) + ['coqchk -o (independent checker, whole dependency cone): ' + res['coqchk']]
+        if rc != 0 or '* Axioms: <none>' not in summary:
+            res['ok'] = False
+            res['log'] += '\ncoqchk:\n' + out[-3000:]
+            res['failed_at'] = 'coqchk'
+    return res
 
 
 # ---------------------------------------------------------------------------------------------------
